@@ -24,6 +24,7 @@ def std(pkg, qprop, tprop, fuzz=None, grid_shards_thorough=1, level="exploration
 
 
 PROPS = {
+    "C15": std("c15", 3000, 30000, extra=dict(engine="rapid stateful (model-based histories)")),
     "C12": std("c12", 10000, 100000, fuzz=30),
     "C14": std("c14", 5000, 50000, fuzz=30),
     "C13": std("c13", 5000, 50000, fuzz=30),
